@@ -32,6 +32,7 @@ impl Cell {
 //@use cell.fns Cell::bitstr assumed
 //@use cell.fns Cell::to_bitstr assumed
 //@use cell.fns Cell::to_xint assumed
+//@use cell.fns Cell::to_real assumed
 //@use cell.fns Cell::vec assumed
 //@use cell.fns Cell::with_tags assumed
 //@use cell.fns Cell::insert_tag assumed
@@ -108,6 +109,84 @@ impl State {
 //@use cursor.fns ::word_open_bitstr
 //@use cursor.fns ::pack_int_bo
 //@use cursor.fns ::bitstring_append
+//@use cursor.fns ::current_byteorder
+//@use cursor.fns ::set_byteorder
+//@use cursor.fns ::read_unsigned_n
+//@use cursor.fns ::read_signed_n
+//@use cursor.fns ::read_float_n
+//@use cursor.fns ::pack_int
+//@use cursor.fns ::pack_float_bo
+//@use cursor.fns ::pack_float
+
+// the data words of the word table (Rword)
+//@use words.fns ::load#w_u8
+//@use words.fns ::load#w_u8_bang
+//@use words.fns ::load#w_u8le
+//@use words.fns ::load#w_u8le_bang
+//@use words.fns ::load#w_u8be
+//@use words.fns ::load#w_u8be_bang
+//@use words.fns ::load#w_i8
+//@use words.fns ::load#w_i8_bang
+//@use words.fns ::load#w_i8le
+//@use words.fns ::load#w_i8le_bang
+//@use words.fns ::load#w_i8be
+//@use words.fns ::load#w_i8be_bang
+//@use words.fns ::load#w_u16
+//@use words.fns ::load#w_u16_bang
+//@use words.fns ::load#w_u16le
+//@use words.fns ::load#w_u16le_bang
+//@use words.fns ::load#w_u16be
+//@use words.fns ::load#w_u16be_bang
+//@use words.fns ::load#w_i16
+//@use words.fns ::load#w_i16_bang
+//@use words.fns ::load#w_i16le
+//@use words.fns ::load#w_i16le_bang
+//@use words.fns ::load#w_i16be
+//@use words.fns ::load#w_i16be_bang
+//@use words.fns ::load#w_u32
+//@use words.fns ::load#w_u32_bang
+//@use words.fns ::load#w_u32le
+//@use words.fns ::load#w_u32le_bang
+//@use words.fns ::load#w_u32be
+//@use words.fns ::load#w_u32be_bang
+//@use words.fns ::load#w_i32
+//@use words.fns ::load#w_i32_bang
+//@use words.fns ::load#w_i32le
+//@use words.fns ::load#w_i32le_bang
+//@use words.fns ::load#w_i32be
+//@use words.fns ::load#w_i32be_bang
+//@use words.fns ::load#w_u64
+//@use words.fns ::load#w_u64_bang
+//@use words.fns ::load#w_u64le
+//@use words.fns ::load#w_u64le_bang
+//@use words.fns ::load#w_u64be
+//@use words.fns ::load#w_u64be_bang
+//@use words.fns ::load#w_i64
+//@use words.fns ::load#w_i64_bang
+//@use words.fns ::load#w_i64le
+//@use words.fns ::load#w_i64le_bang
+//@use words.fns ::load#w_i64be
+//@use words.fns ::load#w_i64be_bang
+//@use words.fns ::load#w_f32
+//@use words.fns ::load#w_f32_bang
+//@use words.fns ::load#w_f32le
+//@use words.fns ::load#w_f32le_bang
+//@use words.fns ::load#w_f32be
+//@use words.fns ::load#w_f32be_bang
+//@use words.fns ::load#w_f64
+//@use words.fns ::load#w_f64_bang
+//@use words.fns ::load#w_f64le
+//@use words.fns ::load#w_f64le_bang
+//@use words.fns ::load#w_f64be
+//@use words.fns ::load#w_f64be_bang
+//@use words.fns ::load#w_big
+//@use words.fns ::load#w_little
+//@use words.fns ::load#w_int
+//@use words.fns ::load#w_uint
+//@use words.fns ::load#w_float
+//@use words.fns ::load#w_int_bang
+//@use words.fns ::load#w_uint_bang
+//@use words.fns ::load#w_float_bang
 
 // LIFO: close-bitstr after open-bitstr restores the previous input and offset (lemma over the two contracts)
 fn lemma_close_restores_open(xs: &mut State, s: Bitstr)
@@ -136,6 +215,22 @@ pub uninterp spec fn bits_from_int(v: i128, n: int, order: Byteorder) -> Seq<boo
     ensures r.view() == bits_from_int(v, n as int, order), r.view().len() == n, r.s() == 0 { unimplemented!() }
 #[verifier::external_body] fn verif_to_f32(s: &Bitstr, order: Byteorder) -> (r: f32) ensures r == f32_of(s.view(), order) { unimplemented!() }
 #[verifier::external_body] fn verif_to_f64(s: &Bitstr, order: Byteorder) -> (r: f64) ensures r == f64_of(s.view(), order) { unimplemented!() }
+pub uninterp spec fn bits_from_f32(v: f32, order: Byteorder) -> Seq<bool>;
+pub uninterp spec fn bits_from_f64(v: f64, order: Byteorder) -> Seq<bool>;
+pub uninterp spec fn f64_to_f32_spec(x: f64) -> f32;
+#[verifier::external_body] fn f64_to_f32(x: f64) -> (r: f32) ensures r == f64_to_f32_spec(x) { x as f32 }
+#[verifier::external_body] fn verif_from_f32(v: f32, order: Byteorder) -> (r: Bitstr)
+    ensures r.view() == bits_from_f32(v, order), r.view().len() == 32 { unimplemented!() }
+#[verifier::external_body] fn verif_from_f64(v: f64, order: Byteorder) -> (r: Bitstr)
+    ensures r.view() == bits_from_f64(v, order), r.view().len() == 64 { unimplemented!() }
+// `==` on cells: proved against cell_eq in unit collections; here only the comparison with an integer is needed
+pub uninterp spec fn cell_eq_u(a: Cell, b: Cell) -> bool;
+impl vstd::std_specs::cmp::PartialEqSpecImpl for Cell {
+    open spec fn obeys_eq_spec() -> bool { true }
+    open spec fn eq_spec(&self, other: &Self) -> bool { cell_eq_u(*self, *other) }
+}
+impl PartialEq for Cell { #[verifier::external_body] fn eq(&self, other: &Self) -> (r: bool) ensures r == cell_eq_u(*self, *other) { unimplemented!() } }
+#[verifier::external_body] proof fn axiom_cell_eq_int(a: Cell, k: i128) ensures cell_eq_u(a, Cell::Int(k)) == (strip(a) == Cell::Int(k)) {}
 // R3k: the tag key constant OFFSET_LIT (a string literal cell)
 #[verifier::external_body] fn verif_offset_lit() -> (r: Cell) ensures r == offset_lit() { unimplemented!() }
 
